@@ -449,3 +449,9 @@ impl From<Decimal> for Decimal256 {
     fn from(d: Decimal) -> (r: Decimal256) { unimplemented!() }
 }
 pub struct OverflowError { pub kind: u8 }
+
+impl UnwrapOrZero for Option<Uint128> {
+    fn unwrap_or_zero(self) -> (o: Uint128)
+        ensures self is Some ==> o == self->Some_0, self is None ==> o.0 == 0
+    { match self { Some(v) => v, None => Uint128(0) } }
+}
